@@ -581,4 +581,159 @@ Proof.
   - destruct (remove_witnesses (w0 :: ws) rm); discriminate.
 Qed.
 
+(* ------------------------------------------------------------------ an attack verdict comes with evidence *)
+
+Lemma askS_ev : forall s p h r s', askS s p h = (r, s') -> st_ev sig W s' = st_ev sig W s.
+Proof.
+  intros s p h r s' H. unfold Model.askS in H. destruct (ask (st_w sig W s) p h) as [r0 w'].
+  injection H as _ <-. reflexivity.
+Qed.
+
+Lemma skipping_loop_ev : forall fuel P source now newb s cache depth verified trace r s',
+  verify_skipping_loop fuel P source now newb s cache depth verified trace = (r, s') ->
+  st_ev sig W s' = st_ev sig W s.
+Proof.
+  induction fuel as [|fuel IH]; intros P source now newb s cache depth verified trace r s' H.
+  - cbn in H. injection H as _ <-. reflexivity.
+  - cbn [Model.verify_skipping_loop] in H.
+    destruct (verify P verified (lb_vals verified) (nth depth cache newb) now);
+      try (injection H as _ <-; reflexivity).
+    + destruct (Nat.eqb depth 0); [injection H as _ <-; reflexivity|]. eapply IH; exact H.
+    + destruct (Nat.eqb depth (length cache - 1)); [|eapply IH; exact H].
+      destruct (Model.askS sig W ask s source _) as [rep s1] eqn:E. apply askS_ev in E.
+      destruct rep as [ib|e].
+      * apply IH in H. congruence.
+      * destruct (is_benign e); injection H as _ <-; exact E.
+Qed.
+
+Lemma skipping_ev : forall P source s t u now r s',
+  verify_skipping P source s t u now = (r, s') -> st_ev sig W s' = st_ev sig W s.
+Proof. intros. unfold Model.verify_skipping in H. eapply skipping_loop_ev; exact H. Qed.
+
+Notation examine_loop := (examine_loop sig sv hash vhash bid_hash W ask).
+Notation examine_conflicting := (examine_conflicting sig sv hash vhash bid_hash W ask).
+Notation handle_conflicting := (handle_conflicting sig sv hash vhash bid_hash W ask).
+
+Lemma examine_loop_ev : forall trace P source now target s first prev strace r s',
+  examine_loop P source now target s trace first prev strace = (r, s') ->
+  st_ev sig W s' = st_ev sig W s.
+Proof.
+  induction trace as [|tb rest IH]; intros P source now target s first prev strace r s' H;
+    cbn [Model.examine_loop] in H.
+  - injection H as _ <-. reflexivity.
+  - destruct (Model.lb_height sig target <? Model.lb_height sig tb).
+    + destruct (Model.lb_time sig target <? Model.lb_time sig tb); [injection H as _ <-; reflexivity|].
+      destruct (negb (Model.lb_height sig prev =? Model.lb_height sig target)); [|injection H as _ <-; reflexivity].
+      destruct (Model.verify_skipping sig sv hash vhash bid_hash W ask P source s prev target now) as [[tr|e] s1] eqn:E;
+        apply skipping_ev in E; injection H as _ <-; exact E.
+    + destruct (if Model.lb_height sig tb =? Model.lb_height sig target then (P_block sig target, s)
+                else Model.askS sig W ask s source (Model.lb_height sig tb)) as [sbr s1] eqn:E1.
+      assert (L1 : st_ev sig W s1 = st_ev sig W s).
+      { destruct (Model.lb_height sig tb =? Model.lb_height sig target);
+          [injection E1 as _ <-; reflexivity | eapply askS_ev; exact E1]. }
+      destruct sbr as [sb|e]; [|injection H as _ <-; exact L1].
+      destruct first.
+      * destruct (negb (Model.lb_hash sig hash sb =? Model.lb_hash sig hash tb)); [injection H as _ <-; exact L1|].
+        apply IH in H. congruence.
+      * destruct (Model.verify_skipping sig sv hash vhash bid_hash W ask P source s1 prev sb now) as [[tr|e] s2] eqn:E2;
+          apply skipping_ev in E2.
+        -- destruct (negb (Model.lb_hash sig hash sb =? Model.lb_hash sig hash tb)); [injection H as _ <-; congruence|].
+           apply IH in H. congruence.
+        -- injection H as _ <-. congruence.
+Qed.
+
+Lemma examine_ev : forall P source now s trace target r s',
+  examine_conflicting P source now s trace target = (r, s') -> st_ev sig W s' = st_ev sig W s.
+Proof.
+  intros P source now s trace target r s' H. unfold Model.examine_conflicting in H.
+  destruct trace as [|t0 rest]; [injection H as _ <-; reflexivity|].
+  destruct (Model.lb_height sig target <? Model.lb_height sig t0); [injection H as _ <-; reflexivity|].
+  eapply examine_loop_ev; exact H.
+Qed.
+
+(* handleConflictingHeaders answers "attack" only after reporting evidence against the primary to
+   the witness that backed the conflicting header; otherwise no evidence is reported *)
+Lemma handle_attack_evidence : forall P c now s ptrace b i s',
+  handle_conflicting P c now s ptrace b i = (HC_attack, s') ->
+  exists e tl, st_ev sig W s' = tl ++ (nth i (cl_witnesses sig c) 0, e) :: st_ev sig W s.
+Proof.
+  intros P c now s ptrace b i s' H. unfold Model.handle_conflicting in H.
+  destruct (Model.examine_conflicting sig sv hash vhash bid_hash W ask P (nth i (cl_witnesses sig c) 0) now s ptrace b)
+    as [[[wtrace pblock]|] s1] eqn:E1; [|discriminate].
+  apply examine_ev in E1.
+  destruct wtrace as [|common wrest]; [discriminate|].
+  match type of H with context [Model.reportS sig W s1 ?p ?e] => set (ev1 := e) in *; set (sw := p) in * end.
+  destruct (Model.examine_conflicting sig sv hash vhash bid_hash W ask P (cl_primary sig c) now
+              (Model.reportS sig W s1 sw ev1) (common :: wrest) pblock) as [[[ptrace' wblock]|] s3] eqn:E2;
+    apply examine_ev in E2; cbn [Model.reportS Model.st_ev] in E2.
+  - destruct ptrace' as [|common' prest]; [discriminate|]. injection H as <-.
+    cbn [Model.reportS Model.st_ev]. rewrite E2, E1. eexists ev1, [_]. reflexivity.
+  - injection H as <-. rewrite E2, E1. exists ev1, []. reflexivity.
+Qed.
+
+Lemma detect_loop_attack : forall {S} (handle : S -> lblock -> nat -> hc_result * S) msgs s matched rm s',
+  Model.detect_loop sig handle s msgs matched rm = (DD_attack, s') ->
+  exists sa b i, In (M_conflict sig b i) msgs /\ handle sa b i = (HC_attack, s').
+Proof.
+  intros S handle. induction msgs as [|m msgs IH]; intros s matched rm s' H.
+  - cbn in H. destruct matched; discriminate.
+  - destruct m as [|b i|i| |]; cbn [Model.detect_loop] in H.
+    + apply IH in H as [sa [b [i [A B]]]]. exists sa, b, i. split; [right; exact A | exact B].
+    + destruct (handle s b i) as [[| |] s1] eqn:Eh.
+      * apply IH in H as [sa [b' [i' [A B]]]]. exists sa, b', i'. split; [right; exact A | exact B].
+      * injection H as <-. exists s, b, i. split; [left; reflexivity | exact Eh].
+      * discriminate.
+    + apply IH in H as [sa [b [i' [A B]]]]. exists sa, b, i'. split; [right; exact A | exact B].
+    + apply IH in H as [sa [b [i [A B]]]]. exists sa, b, i. split; [right; exact A | exact B].
+    + discriminate.
+Qed.
+
+(* detectDivergence returns ErrLightClientAttack only after evidence against the primary was
+   reported to the witness whose conflicting header could be verified *)
+Lemma attack_has_evidence : forall P c s trace now c' s',
+  detect_divergence P c s trace now = (Some X_attack, c', s') ->
+  exists i e, In (nth i (cl_witnesses sig c) 0, e) (st_ev sig W s').
+Proof.
+  intros P c s trace now c' s' H. unfold Model.detect_divergence in H.
+  destruct trace as [|t0 [|t1 tr]]; try discriminate.
+  destruct (cl_witnesses sig c) as [|w0 ws] eqn:Ew; [discriminate|].
+  destruct (Model.compare_all sig hash W ask s _ _) as [msgs s1].
+  match type of H with context [Model.detect_loop sig ?hd s1 ?m false []] =>
+    destruct (Model.detect_loop sig hd s1 m false []) as [r s2] eqn:El end.
+  destruct r as [rm|rm| | |]; try discriminate.
+  - destruct (remove_witnesses (w0 :: ws) rm); discriminate.
+  - destruct (remove_witnesses (w0 :: ws) rm); discriminate.
+  - injection H as _ <-. apply detect_loop_attack in El as [sa [b [i [_ Hh]]]].
+    apply handle_attack_evidence in Hh as [e [tl Hev]]. rewrite Ew in Hev.
+    exists i, e. rewrite Hev. apply in_or_app. right. left. reflexivity.
+Qed.
+
+(* detectDivergence says "trusted" (or "no witness confirmed") only with every witness whose
+   answer conflicted, or was invalid, removed from the witness list *)
+Lemma trusted_removes_conflicting : forall P c s t0 rest now c' s',
+  detect_divergence P c s (t0 :: rest) now = (None, c', s') ->
+  exists msgs s1 rm,
+    compare_all s (last (t0 :: rest) t0) (arrival_order rank (cl_witnesses sig c)) = (msgs, s1) /\
+    rm = removed (firstn (length (cl_witnesses sig c)) msgs) /\
+    remove_witnesses (cl_witnesses sig c) rm = Some (cl_witnesses sig c') /\
+    (forall b i, In (M_conflict sig b i) (firstn (length (cl_witnesses sig c)) msgs) -> In i rm).
+Proof.
+  intros P c s t0 rest now c' s' H. unfold Model.detect_divergence in H.
+  destruct rest as [|t1 rest']; [discriminate|].
+  destruct (cl_witnesses sig c) as [|w0 ws] eqn:Ew; [discriminate|].
+  destruct (Model.compare_all sig hash W ask s (last (t0 :: t1 :: rest') t0) (arrival_order rank (w0 :: ws)))
+    as [msgs s1] eqn:Ec.
+  match type of H with context [Model.detect_loop sig ?hd s1 ?m false []] =>
+    destruct (Model.detect_loop sig hd s1 m false []) as [r s2] eqn:El end.
+  apply detect_loop_removed in El.
+  destruct r as [rm|rm| | |]; try discriminate.
+  - destruct (remove_witnesses (w0 :: ws) rm) as [ws'|] eqn:Er; [|discriminate].
+    injection H as <- _. cbn [app] in El. subst rm.
+    exists msgs, s1, (removed (firstn (length (w0 :: ws)) msgs)).
+    split; [reflexivity|]. split; [reflexivity|]. split; [exact Er|].
+    intros b i Hin. unfold removed. apply in_flat_map. exists (M_conflict sig b i).
+    split; [exact Hin | left; reflexivity].
+  - destruct (remove_witnesses (w0 :: ws) rm); discriminate.
+Qed.
+
 End Proofs.
